@@ -36,10 +36,18 @@ def run(chk):
         raise AnalysisError("buildRemainingTreeAsLists: unexpected signature")
     c, S_, WO, IRV = params
     loops = [l for l in fn.body if isinstance(l, ast.For)]
+    # the two tag lists: what the pruned leaf is built from
+    NT, IT = "NEBTags", "IRVTags"
+    for lc in [x for x in ast.walk(fn) if isinstance(x, ast.Call) and norm(x.func) == "LeafNode"]:
+        kwl = {k.arg: k.value for k in lc.keywords}
+        if isinstance(kwl.get("NEBTagList"), ast.Name) and isinstance(kwl.get("IRVTagList"), ast.Name):
+            NT, IT = kwl["NEBTagList"].id, kwl["IRVTagList"].id
+    rn = [r.value.id for r in walk_local(fn) if isinstance(r, ast.Return) and isinstance(r.value, ast.Name)]
+    TREE = rn[0] if rn else "tree"
     specs = {
-        WO: ("C20.R1", "neb-prune-test", "{c} == {v}[0] and {v}[1] in {S}", "NEBTags",
+        WO: ("C20.R1", "neb-prune-test", "{c} == {v}[0] and {v}[1] in {S}", NT,
              "prune at (c, S) by a not-eliminated-before assertion iff c is its loser and its winner is still in S"),
-        IRV: ("C20.R2", "nen-prune-test", "{c} == {v}[0] and {v}[1] == {S}", "IRVTags",
+        IRV: ("C20.R2", "nen-prune-test", "{c} == {v}[0] and {v}[1] == {S}", IT,
               "prune at (c, S) by a not-eliminated-next assertion iff c is its candidate and its eliminated set equals S"),
     }
     flag = None
@@ -76,13 +84,13 @@ def run(chk):
                     ok_tag = idxv is not None and first == idxv and second == f"{v}[2]"
                     detail["tag"] = norm(apps[0].args[0])
         chk.ob(rule, where, key, ok, what + "; every assertion of the list is examined", node=ls[0] if ls else fn, **detail)
-        chk.ob("C20.R4", where, f"own-index-tag:{tags}", ok_tag,
+        chk.ob("C20.R4", where, f"own-index-tag:{'NEBTags' if lst == WO else 'IRVTags'}", ok_tag,
                "the tag recorded for a matching assertion is (its own position in the list, its proved flag)", node=ls[0] if ls else fn,
                tag=detail.get("tag"))
         chk.exhaustive = True
     # tag lists start empty, flag starts False
     inits = {norm(s.targets[0]): norm(s.value) for s in fn.body if isinstance(s, ast.Assign) and isinstance(s.targets[0], ast.Name)}
-    chk.ob("C20.R4", where, "tags-start-empty", inits.get("NEBTags") == "[]" and inits.get("IRVTags") == "[]" and flag is not None
+    chk.ob("C20.R4", where, "tags-start-empty", inits.get(NT) == "[]" and inits.get(IT) == "[]" and flag is not None
            and inits.get(flag) == "False", "tag lists start empty and the prune flag starts False at every node", node=fn)
     # ---- R3 decision structure after the loops
     dec = [s for s in fn.body if isinstance(s, ast.If) and flag and norm(s.test) == flag]
@@ -94,7 +102,7 @@ def run(chk):
         pl = [x for x in ast.walk(ast.Module(body=d.body, type_ignores=[])) if isinstance(x, ast.Call) and norm(x.func) == "LeafNode"]
         if len(pl) == 1:
             kw = {k.arg: norm(k.value) for k in pl[0].keywords}
-            ok_prec = kw.get("cand") == c and kw.get("NEBTagList") == "NEBTags" and kw.get("IRVTagList") == "IRVTags"
+            ok_prec = kw.get("cand") == c and kw.get("NEBTagList") == NT and kw.get("IRVTagList") == IT
         # elif not S: unpruned leaf; else recurse
         if len(d.orelse) == 1 and isinstance(d.orelse[0], ast.If):
             e = d.orelse[0]
@@ -117,7 +125,7 @@ def run(chk):
                         removed = any(isinstance(x, ast.Call) and norm(x.func) in (f"{sm}.remove", f"{sm}.discard") and norm(x.args[0]) == c2
                                       for x in walk_local(l)) or norm(copies[0].value) in (f"{S_}-{{{c2}}}", f"{S_}.difference({{{c2}}})")
                         args = [norm(a) for a in calls[0].args]
-                        appended = isinstance(parent(calls[0]), ast.Call) and norm(parent(calls[0]).func) == "tree[1].append"
+                        appended = isinstance(parent(calls[0]), ast.Call) and norm(parent(calls[0]).func) == f"{TREE}[1].append"
                         esc = [x for x in walk_local(l) if isinstance(x, (ast.Break, ast.Continue, ast.Return))]
                         ok_rec = removed and args == [c2, sm, WO, IRV] and appended and not esc
                         detail["recursive_call"] = norm(calls[0])
@@ -149,7 +157,8 @@ def run(chk):
     for s in walk_local(tl):
         if isinstance(s, ast.If):
             got = Tx().cond(s.test)
-            want = spec.cond_term("not (node.NEBTagList or node.IRVTagList)")
+            nd = next((norm(a0.targets[0]) for a0 in ast.walk(tl) if isinstance(a0, ast.Assign) and norm(a0.value) == f"{tl.args.args[0].arg}[0]"), "node")
+            want = spec.cond_term(f"not ({nd}.NEBTagList or {nd}.IRVTagList)")
             if aud.cond_equiv(got, want)[0]:
                 txt = [x.value for x in ast.walk(ast.Module(body=s.body, type_ignores=[])) if isinstance(x, ast.Constant) and isinstance(x.value, str)]
                 ok = any("Unpruned leaf" in t for t in txt) and not s.orelse
@@ -158,7 +167,14 @@ def run(chk):
            "the 'Unpruned leaf' marker is produced exactly when both tag lists of a leaf are empty", node=tl)
     # ---- R5 parseAssertions
     pa = chk.fn(VIS, "parseAssertions")
-    apps = [x for x in ast.walk(pa) if isinstance(x, ast.Call) and norm(x.func) in ("WOLosers.append", "IRVElims.append")]
+    rt = [r for r in walk_local(pa) if isinstance(r, ast.Return) and isinstance(r.value, ast.Tuple) and len(r.value.elts) == 4]
+    WOL, IRVL = (norm(rt[0].value.elts[2]), norm(rt[0].value.elts[3])) if rt else ("WOLosers", "IRVElims")
+    DET = "a_detail"
+    for x in ast.walk(pa):
+        if isinstance(x, ast.Compare) and isinstance(x.left, ast.Subscript) and isinstance(x.left.slice, ast.Constant) \
+                and x.left.slice.value == "assertion_type" and isinstance(x.left.value, ast.Name):
+            DET = x.left.value.id
+    apps = [x for x in ast.walk(pa) if isinstance(x, ast.Call) and norm(x.func) in (f"{WOL}.append", f"{IRVL}.append")]
     env = {}
     ok_wo = ok_irv = False
     for x in apps:
@@ -177,11 +193,11 @@ def run(chk):
             if isinstance(a, ast.If) and "assertion_type" in norm(a.test) and "==" in norm(a.test):
                 cond_txt = norm(a.test)
                 break
-        if norm(x.func) == "WOLosers.append" and "WINNER_ONLY" in cond_txt:
-            ok_wo = e[0] in ('a_detail["loser"]', "a_detail['loser']") and e[1] in ('a_detail["winner"]', "a_detail['winner']") and e[2] == "proved"
-        if norm(x.func) == "IRVElims.append" and "IRV_ELIMINATION" in cond_txt:
-            ok_irv = e[0] in ('a_detail["winner"]', "a_detail['winner']") and e[1] in ('set(a_detail["already_eliminated"])', "set(a_detail['already_eliminated'])") \
-                and e[2] == "proved"
+        third_ok = isinstance(tup.elts[2], ast.Name)
+        if norm(x.func) == f"{WOL}.append" and "WINNER_ONLY" in cond_txt:
+            ok_wo = e[0] == f"{DET}['loser']" and e[1] == f"{DET}['winner']" and third_ok
+        if norm(x.func) == f"{IRVL}.append" and "IRV_ELIMINATION" in cond_txt:
+            ok_irv = e[0] == f"{DET}['winner']" and e[1] == f"set({DET}['already_eliminated'])" and third_ok
     chk.ob("C20.R5", f"{VIS}:parseAssertions", "winner-only->(loser,winner,proved)", ok_wo,
            "a WINNER_ONLY assertion becomes the tuple (loser, winner, proved)", node=pa, strength="N")
     chk.ob("C20.R5", f"{VIS}:parseAssertions", "irv-elimination->(winner,set(eliminated),proved)", ok_irv,
@@ -189,6 +205,6 @@ def run(chk):
     # the driver builds S = all candidates except the alternative winner
     bp = chk.fn(VIS, "buildPrintedResults")
     calls = [x for x in ast.walk(bp) if isinstance(x, ast.Call) and norm(x.func) == fn.name]
-    ok = len(calls) == 1 and [norm(a) for a in calls[0].args][2:] == ["WOLosers", "IRVElims"]
+    ok = len(calls) == 1 and [norm(a) for a in calls[0].args][2:] == [a.arg for a in bp.args.args][2:4]
     chk.ob("C20.R5", f"{VIS}:buildPrintedResults", "driver-passes-assertions", ok,
            "the tree for each alternative winner is built with the full assertion lists", node=bp, strength="N")
